@@ -278,7 +278,7 @@ func run() int {
 		// inconclusive conditions
 		for k, n := range st.Status {
 			switch k {
-			case "ok", "cut", "infeasible", "assert-end", "crash":
+			case "ok", "cut", "infeasible", "assert-end", "crash", "wedge":
 			default:
 				reasons := []string{}
 				for r := range st.Unsupported {
@@ -522,9 +522,9 @@ func explore(sh *interp.Shared, h *ssa.Function, known map[string]bool) *harness
 				switch res.Status {
 				case "cut":
 					st.Cuts[res.Reason]++
-				case "crash":
+				case "crash", "wedge":
 					if *verbose {
-						fmt.Printf("  path %s ended: crash: %s\n", interp.DecString(res.Decs), res.Reason)
+						fmt.Printf("  path %s ended: %s: %s\n", interp.DecString(res.Decs), res.Status, res.Reason)
 					}
 				case "ok", "infeasible", "assert-end":
 				default:
@@ -697,7 +697,14 @@ func nativeReplayEnv(relDir string, ovPaths map[string]string, env []string) (bo
 	ovJSON, _ := json.Marshal(map[string]interface{}{"Replace": repl})
 	ovFile := filepath.Join(tmp, "overlay.json")
 	os.WriteFile(ovFile, ovJSON, 0o644)
-	cmd := exec.Command("go", "test", "-tags", "verif", "-vet=off", "-count=1", "-overlay", ovFile, "-ldflags=-checklinkname=0", "-run", "^TestZZReplay$", "-v", "./"+relDir)
+	// a counterexample of the wedge assertion blocks the native run forever: it is given two minutes
+	timeout := "20m"
+	for _, e := range env {
+		if strings.HasPrefix(e, "ZZVERIF_REPLAY=") && strings.Contains(replayLabel(strings.TrimPrefix(e, "ZZVERIF_REPLAY=")), "wedge.") {
+			timeout = "120s"
+		}
+	}
+	cmd := exec.Command("go", "test", "-tags", "verif", "-vet=off", "-count=1", "-timeout", timeout, "-overlay", ovFile, "-ldflags=-checklinkname=0", "-run", "^TestZZReplay$", "-v", "./"+relDir)
 	cmd.Dir = *repo
 	cmd.Env = append(append(os.Environ(), "GOFLAGS=-mod=mod", "GOPROXY=off", "GOSUMDB=off", "GOTOOLCHAIN=local"), env...)
 	out, err := cmd.CombinedOutput()
@@ -717,6 +724,9 @@ func nativeReplay(relDir, replayPath string, ovPaths map[string]string, repeat i
 	var rj replayJSON
 	if b, err := os.ReadFile(replayPath); err == nil {
 		json.Unmarshal(b, &rj)
+	}
+	if strings.Contains(rj.Label, "wedge.") && (strings.Contains(s, "test timed out after") || strings.Contains(s, "all goroutines are asleep")) && !strings.Contains(s, "REPLAY-NOT-REPRODUCED") {
+		return true, s // the native run never came back
 	}
 	if strings.Contains(rj.Label, "crash") && strings.Contains(s, "panic:") && strings.Contains(s, "goroutine ") && !strings.Contains(s, "REPLAY-NOT-REPRODUCED") {
 		return true, s
